@@ -10,7 +10,7 @@ import "sync/atomic"
 var verifYieldFnLT atomic.Pointer[func(point string)]
 
 // VerifSetYieldLT installs (or, with nil, removes) the function called at the
-// yield points "GetOrAddFeature.miss" and "UseCase.copied".
+// yield points "GetOrAddFeature.miss", "UseCase.copied" and "UseCase.store".
 func VerifSetYieldLT(f func(point string)) {
 	if f == nil {
 		verifYieldFnLT.Store(nil)
